@@ -71,9 +71,9 @@ var props = map[string]propInfo{
 	},
 	"C06": {
 		Engine: "pbfsim", Race: true, Level: "fault_enumeration",
-		QuickRuns: 3 * 16, ThoroughRuns: 120 * 16, QuickSecs: 600, ThoroughSecs: 4 * 3600, Chunk: 1, Group: 16,
-		Rule:   "a run is (generated PBF file, slice): the file comes from the choice tape (3-6 data blocks, optional header, every optional part toggled); its cases are every cut offset (thorough: all offsets 0..len; quick: all block/prefix/BlobHeader boundaries +-3, ~40 offsets through the first and last block, 24 drawn), 6 drawn I/O-error offsets, and every damage class of the catalogue x {first, middle, last} data block (header classes on the header), each at 1, 2, 3 and 11 decoders under a drawn delay policy and reader chunking; the 16 runs of a file enumerate disjoint slices of its cases. Every case is one simulated execution and is non-trivial (a fault is injected in each); distinct = distinct (file, case, interleaving hash)",
-		Probes: []string{"error-after-correct-prefix", "error-after-nonempty-prefix", "clean-end-on-boundary", "io-error-returned"},
+		QuickRuns: 6 * 16, ThoroughRuns: 120 * 16, QuickSecs: 600, ThoroughSecs: 4 * 3600, Chunk: 1, Group: 16,
+		Rule:   "a run is (generated PBF file, slice): the file comes from the choice tape (3-6 data blocks, optional header, every optional part toggled); its cases are every cut offset (thorough: all offsets 0..len; quick: all block/prefix/BlobHeader boundaries +-3, ~40 offsets through the first and last block, 24 drawn), 6 drawn I/O-error offsets, 24 seeded bit flips in the PrimitiveBlock bytes of up to 3 raw blocks (oracle: no crash, no hang, objects of the earlier blocks first), and every damage class of the catalogue x {first, middle, last} data block (header classes on the header), each at 1, 2, 3 and 11 decoders under a drawn delay policy and reader chunking; the 16 runs of a file enumerate disjoint slices of its cases. Every case is one simulated execution and is non-trivial (a fault is injected in each); distinct = distinct (file, case, interleaving hash)",
+		Probes: []string{"error-after-correct-prefix", "error-after-nonempty-prefix", "clean-end-on-boundary", "io-error-returned", "bit-flip-detected", "bit-flip-undetected"},
 		Real:   pbfReal, Simulated: pbfSim,
 		Assumptions: append([]string{"damage classes are the catalogue in h/pbfsim/c06.go (what the statement names); surplus column entries that nothing references are not a class", "Read on the simulated reader always returns"}, commonAssumptions...),
 	},
